@@ -199,6 +199,19 @@ CHECKS["C19"] = dict(engine="E3", cat="model_checking", design="4/C19",
                      note="one interposed call is atomic; readers see a snapshot; 2 (thorough 4) installed files; lock model "
                           "instead of real flock inside the explorer")
 
+CHECKS["C16"] = dict(engine="E1", cat="model_checking", design="4/C16",
+                     technique="exhaustive enumeration of directory trees of a layout grammar written to tmpfs; reference "
+                               "BIDS inheritance as oracle; differential comparison of issue multisets",
+                     text="Every tree (session level or not, run entity or not, 3 events files, sidecars in {root, sub-01, "
+                          "sub-02, ses} directories with every entity subset that keeps <= 1 applicable file per directory, "
+                          "decoys in derivatives/ and code/) is loaded with BidsDataset: the sidecar applied to each events "
+                          "file must equal the reference top-down merge (deeper overrides per column key, sub-keys varied); "
+                          "excluded directories take no part; dataset issues (errors only and with warnings) must equal the "
+                          "multiset union of validating each sidecar with its own chain and each events file with its "
+                          "reference-merged sidecar; hed_validator.main() exits non-zero iff that list is non-empty.",
+                     note="fixed file/entity alphabet; expected issues computed with the library's Sidecar/TabularInput "
+                          "validation on reference-merged sidecars")
+
 PENDING_REASON = "check not built yet in this revision (planned in DESIGN.md section 4); not claimed until it is"
 
 
